@@ -616,6 +616,57 @@ def coophist : P String := do
   if st.outside && st.v.fails.isEmpty then pure "skip arguments_outside_documented_precondition"
   else pure ({ st.v with tag := tag }).render
 
+/-- `C07 coopq <component> <graph> sizes[nf] nf×size_i×(row[S_i] rew) nq { q s a R Rvec[nf] full K K×(s1[nf] P) }`
+    what a cooperative learned model answers against what it exposes: `getTransitionProbability(s,a,s1)` must be the product of its
+    own rows `getId(i,s,a)` (Lean index), `getExpectedReward` the sum of its own rewards; every exposed row a distribution; when all
+    joint next states were queried they sum to one (`coop_joint_of_rows`, `coop_joint_is_distribution`, `coop_thompson_joint_valid`). -/
+def coopq : P String := do
+  let comp ← P.tok
+  let g ← pDDN
+  let nf := g.S.length
+  let na := g.A.length
+  let sizes ← P.rep P.nat nf
+  let tabs ← (List.range nf).foldlM (fun (acc : List (List ModObs)) i => do
+      let t ← P.rep (pMod (g.S.getD i 0)) (sizes.getD i 0); pure (acc ++ [t])) []
+  let nq ← P.nat
+  let v0 : Verdict := { tag := "coopq" }
+  let v0 := v0.diffIf (sizes != (List.range nf).map g.getSize) s!"DDNGraph.getSize model={(List.range nf).map g.getSize} impl={sizes}"
+  -- every exposed row is a distribution, every reward finite
+  let v0 := ((tabs.zip (List.range nf)).foldl (fun (v : Verdict) ti =>
+    ((ti.1.foldl (fun (acc : Verdict × Nat) o =>
+      let v := acc.1
+      let allFin := o.row.all xFin
+      let qs := o.row.map (fun x => match x with | .fin q => q | _ => 0)
+      let v := v.failIf (!allFin) s!"{comp} row_not_finite feature={ti.2} row={acc.2}"
+      let v := v.failIf (allFin && qs.any (fun q => decide (q < 0))) s!"{comp} row_negative_entry feature={ti.2} row={acc.2}"
+      let v := v.failIf (allFin && !(decide (AITB.Exp.absQ (sumQ qs - 1) ≤ tol))) s!"{comp} row_sum_not_one feature={ti.2} row={acc.2} sum={ratStr (sumQ qs)}"
+      let v := v.failIf (!(xFin o.rew)) s!"{comp} reward_not_finite feature={ti.2} row={acc.2}"
+      (v, acc.2 + 1)) (v, 0))).1) v0)
+  let cell := fun (i j k : Nat) => match ((tabs.getD i []).getD j ⟨[], .nan⟩).row.getD k .nan with | .fin q => q | _ => (0 : Rat)
+  let rewAt := fun (i j : Nat) => match ((tabs.getD i []).getD j ⟨[], .nan⟩).rew with | .fin q => q | _ => (0 : Rat)
+  let rec loop : Nat → Verdict → P Verdict
+    | 0, v => pure v
+    | n+1, v => do
+        P.lit "q"
+        let s ← P.rep P.nat nf; let a ← P.rep P.nat na
+        let rw ← P.x; let rv ← P.rep P.x nf
+        let full ← P.bool; let k ← P.nat
+        let qs ← P.rep (do let s1 ← P.rep P.nat nf; let p ← P.x; pure (s1, p)) k
+        let ids := (List.range nf).map (fun i => g.getId i s a)
+        let wantRs := (List.range nf).map (fun i => rewAt i (ids.getD i 0))
+        let v := v.failIf (!(xClose rw (wantRs.foldl (· + ·) 0))) s!"{comp}.getExpectedReward expected_reward_not_sum_of_exposed_rewards s={s} a={a} impl={showX rw} want={ratStr (wantRs.foldl (· + ·) 0)}"
+        let v := v.failIf ((rv.zip wantRs).any (fun xw => !(xClose xw.1 xw.2))) s!"{comp}.getExpectedRewards expected_rewards_not_exposed_rewards s={s} a={a}"
+        let v := qs.foldl (fun (v : Verdict) sp =>
+          let want := (List.range nf).foldl (fun (acc : Rat) i => acc * cell i (ids.getD i 0) (sp.1.getD i 0)) 1
+          let v := v.failIf (!(xClose sp.2 want)) s!"{comp}.getTransitionProbability joint_probability_not_product_of_exposed_rows s={s} a={a} s1={sp.1} impl={showX sp.2} want={ratStr want}"
+          v.failIf (match sp.2 with | .fin q => decide (q < 0) | _ => true) s!"{comp}.getTransitionProbability joint_probability_negative_or_not_finite s={s} a={a} s1={sp.1}") v
+        let tot := qs.foldl (fun (acc : Rat) sp => acc + (match sp.2 with | .fin q => q | _ => 0)) 0
+        let v := v.failIf (full && !(decide (AITB.Exp.absQ (tot - 1) ≤ tol))) s!"{comp}.getTransitionProbability joint_distribution_not_normalised s={s} a={a} sum={ratStr tot}"
+        loop n v
+  let v ← loop nq v0
+  P.eof
+  pure v.render
+
 /-- Factored::Bandit::Experience -/
 def fbOp (A : List Nat) (st : CSt) : P CSt := do
   let nb := st.tabs.length
@@ -682,6 +733,7 @@ def handle (toks : List String) : String :=
     | "sethist" :: rest => P.run sethist rest
     | "coophist" :: rest => P.run coophist rest
     | "fbhist" :: rest => P.run fbhist rest
+    | "coopq" :: rest => P.run coopq rest
     | _ => none
   r.getD "bad-op"
 
